@@ -390,6 +390,21 @@ def dispatch (c : Ctx) (r : Row) (options : BitVec 32) (o0 o1 o2 o3 : Op) : Exce
       let (opt1, rg) := if o1.rmSize == 1 then fixupGpb options o1 (r32 o1.id) else (options, r32 o1.id)
       emitX86M c (addArithBySize 0#32 o1.rmSize + 0x88#32) opt1 rg m 0 0
     else .error .unmodelled
+  | 0x0e =>                                                                       -- X86M_Only
+    if isign3 == 2 then emitX86M c opcode options opReg0 (memOf o0) 0 0 else .error .invalidInstruction
+  | 0x38 =>                                                                       -- X86Set
+    if isign3 == 1 then
+      let (opt1, rb) := fixupGpb options o0 (r32 o0.id)
+      emitX86R opcode opt1 opReg0 rb 0 0
+    else if isign3 == 2 then emitX86M c opcode options opReg0 (memOf o0) 0 0
+    else .error .invalidInstruction
+  | 0x56 =>                                                                       -- ExtMov
+    if isign3 == RR then
+      if (options &&& oModMR) == 0#32 || r.altOp == 0#32 then emitX86R opcode options (r32 o0.id) (r32 o1.id) 0 0
+      else emitX86R r.altOp options (r32 o1.id) (r32 o0.id) 0 0
+    else if isign3 == RM then emitX86M c opcode options (r32 o0.id) (memOf o1) 0 0
+    else if isign3 == MR then emitX86M c r.altOp options (r32 o1.id) (memOf o0) 0 0
+    else .error .invalidInstruction
   | 0x26 => emitJmpCall c opcode options 0#32 r.altOp o0 false                   -- X86Jcc
   | 0x28 =>                                                                       -- X86Jmp
     if isign3 == 1 then emitX86R (opcode ||| (if o0.rmSize == 2 then kPP_66 else 0#32)) options opReg0 (r32 o0.id) 0 0
